@@ -31,12 +31,18 @@ def chain_matrix(fn, m, g):
     return E
 
 
-def entry_err(A, B):
-    """max entrywise |A-B| / (|A|+|B|) (0 where both are 0)"""
+def entry_err(A, B, rowfloor=1e-3):
+    """max entrywise |A-B| / (|A_ij| + |B_ij| + rowfloor * max_j(|A_ij|+|B_ij|)).
+
+    The row-wise floor is the natural scale of an entry that is itself a sum of cancelling contributions (e.g. a
+    central-scheme diagonal (ue*DXe - uw*DXw)/DXp that cancels to rounding): -4e-16 against an exact 0 must not alarm,
+    while an O(1) relative defect in any entry larger than ~1e-12 of its row's largest entry still exceeds 1e-9."""
     d = np.abs(A - B)
     s = np.abs(A) + np.abs(B)
     if not np.all(np.isfinite(d)):
         return float('inf')
+    if s.ndim == 2 and s.shape[1] > 0:
+        s = s + rowfloor * s.max(axis=1, keepdims=True)
     with np.errstate(all='ignore'):
         e = np.where(d == 0, 0.0, d / np.where(s > 0, s, 1.0))
     return float(e.max()) if e.size else 0.0
